@@ -289,15 +289,16 @@ fn panic_msg(p: Box<dyn std::any::Any + Send>) -> String {
     }
 }
 
-struct ReadOutcome<T> {
-    result: Result<T, String>,
-    fired: Vec<FiredR>,
-    applied: Vec<bool>,
-    steps: u32,
-    log: u64,
-    opened: Vec<(SmallPath, Vec<Deliver>)>,
-    trace: Option<Vec<(RStep, u8)>>,
-    runaway: bool,
+pub struct ReadOutcome {
+    /// leaves of the value that came back (model order), or the error text
+    pub result: Result<Vec<u64>, String>,
+    pub fired: Vec<FiredR>,
+    pub applied: Vec<bool>,
+    pub steps: u32,
+    pub log: u64,
+    pub opened: Vec<(SmallPath, Vec<Deliver>)>,
+    pub trace: Option<Vec<(RStep, u8)>>,
+    pub runaway: bool,
 }
 
 /// A value of `T` unrelated to the one under test (the old contents of reused storage).
@@ -308,7 +309,8 @@ pub fn stale_value<T: Subject>() -> T {
     T::build(&mut Cur::new(&g))
 }
 
-fn read_once<T: Subject>(medium: Medium, root: &Node, rfaults: &[RFault], trace: bool, in_place: bool) -> ReadOutcome<T> {
+/// The only generic part of the read side: hand the medium to `T`, turn what comes back into leaves.
+pub fn read_once<T: Subject>(medium: Medium, root: &Node, rfaults: &[RFault], trace: bool, in_place: bool) -> ReadOutcome {
     let unknown_vals: Vec<Node> = rfaults
         .iter()
         .map(|f| match f {
@@ -326,7 +328,11 @@ fn read_once<T: Subject>(medium: Medium, root: &Node, rfaults: &[RFault], trace:
         }
     }));
     let result = match r {
-        Ok(Ok(v)) => Ok(v),
+        Ok(Ok(v)) => {
+            let mut got = Vec::new();
+            v.read(&mut got);
+            Ok(got)
+        }
         Ok(Err(e)) => Err(e.to_string()),
         Err(p) => Err(format!("PANIC: {}", panic_msg(p))),
     };
@@ -343,24 +349,29 @@ fn read_once<T: Subject>(medium: Medium, root: &Node, rfaults: &[RFault], trace:
     }
 }
 
-struct WriteOutcome {
-    result: Result<(), String>,
-    root: Option<Node>,
-    root_writes: u32,
-    dangling: usize,
-    fired: Vec<FiredW>,
-    steps: u32,
-    log: u64,
-    trace: Option<Vec<(WStep, u8)>>,
-    runaway: bool,
+pub struct WriteOutcome {
+    pub result: Result<(), String>,
+    pub root: Option<Node>,
+    pub root_writes: u32,
+    pub dangling: usize,
+    pub fired: Vec<FiredW>,
+    pub steps: u32,
+    pub log: u64,
+    pub trace: Option<Vec<(WStep, u8)>>,
+    pub runaway: bool,
 }
 
-fn write_once<T: Subject>(medium: Medium, v: &T, wfaults: &[WFault], trace: bool) -> WriteOutcome {
+/// The only generic part of the write side: build the value from its generator leaves and hand it
+/// to the medium.
+pub fn write_once<T: Subject>(medium: Medium, gen: &[u64], wfaults: &[WFault], trace: bool) -> WriteOutcome {
     let mut store = Store::new(medium, wfaults);
     if trace {
         store.trace = Some(Vec::new());
     }
-    let r = catch_unwind(AssertUnwindSafe(|| v.serialize(&mut store)));
+    let r = catch_unwind(AssertUnwindSafe(|| {
+        let v = T::build(&mut Cur::new(gen));
+        v.serialize(&mut store)
+    }));
     let result = match r {
         Ok(Ok(())) => Ok(()),
         Ok(Err(e)) => Err(e.to_string()),
@@ -379,18 +390,64 @@ fn write_once<T: Subject>(medium: Medium, v: &T, wfaults: &[WFault], trace: bool
     }
 }
 
-fn all_leaves_equal<T: Subject>(v: &T, want: &[u64], skip: &[bool]) -> Result<(), String> {
-    let mut got = Vec::with_capacity(want.len());
-    v.read(&mut got);
-    let shape = T::shape();
-    match first_diff(&shape, want, &got, skip) {
+fn all_leaves_equal(shape: &Shape, got: &[u64], want: &[u64], skip: &[bool]) -> Result<(), String> {
+    match first_diff(shape, want, got, skip) {
         None => Ok(()),
         Some(i) => Err(format!(
             "leaf #{} differs: read back {} but stored/original {}",
             i,
-            render_leaves(&shape, &got),
-            render_leaves(&shape, want)
+            render_leaves(shape, got),
+            render_leaves(shape, want)
         )),
+    }
+}
+
+/// What the oracle needs from one concrete type, behind a vtable so that the (large) oracle code
+/// is compiled once and not once per type.
+pub trait Ops: Send + Sync {
+    fn shape(&self) -> Shape;
+    fn faithful(&self) -> bool;
+    /// build the value from generator leaves and read its leaves back through public fields
+    fn model(&self, gen: &[u64]) -> Result<Vec<u64>, String>;
+    fn write_event(&self, medium: Medium, gen: &[u64], wfaults: &[WFault], trace: bool) -> WriteOutcome;
+    fn read_event(&self, medium: Medium, root: &Node, rfaults: &[RFault], trace: bool, in_place: bool) -> ReadOutcome;
+    fn write_json(&self, gen: &[u64], plan: &crate::bytes::JPlan) -> crate::bytes::JWrite;
+    fn read_json(&self, bytes: &[u8], plan: &crate::bytes::JPlan, stats: &mut (u32, bool, u32, u32)) -> Result<Vec<u64>, String>;
+    fn mirror_read(&self, bytes: &[u8], plan: &crate::bytes::JPlan) -> Option<Result<Vec<u64>, String>>;
+}
+
+pub struct OpsOf<T>(pub std::marker::PhantomData<fn() -> T>);
+
+impl<T: Subject> Ops for OpsOf<T> {
+    fn shape(&self) -> Shape {
+        T::shape()
+    }
+    fn faithful(&self) -> bool {
+        T::faithful()
+    }
+    fn model(&self, gen: &[u64]) -> Result<Vec<u64>, String> {
+        catch_unwind(AssertUnwindSafe(|| {
+            let v = T::build(&mut Cur::new(gen));
+            let mut m = Vec::new();
+            v.read(&mut m);
+            m
+        }))
+        .map_err(panic_msg)
+    }
+    fn write_event(&self, medium: Medium, gen: &[u64], wfaults: &[WFault], trace: bool) -> WriteOutcome {
+        write_once::<T>(medium, gen, wfaults, trace)
+    }
+    fn read_event(&self, medium: Medium, root: &Node, rfaults: &[RFault], trace: bool, in_place: bool) -> ReadOutcome {
+        read_once::<T>(medium, root, rfaults, trace, in_place)
+    }
+    fn write_json(&self, gen: &[u64], plan: &crate::bytes::JPlan) -> crate::bytes::JWrite {
+        crate::bytes::write_json_gen::<T>(gen, plan)
+    }
+    fn read_json(&self, bytes: &[u8], plan: &crate::bytes::JPlan, stats: &mut (u32, bool, u32, u32)) -> Result<Vec<u64>, String> {
+        crate::bytes::read_json_leaves::<T>(bytes, plan, stats)
+    }
+    fn mirror_read(&self, bytes: &[u8], plan: &crate::bytes::JPlan) -> Option<Result<Vec<u64>, String>> {
+        T::mirror_read(bytes, plan)
     }
 }
 
@@ -413,10 +470,11 @@ pub struct ReadFacts<'a> {
 
 /// Decide which assertion the property puts on this read, from what was actually delivered, and
 /// evaluate it. Returns true when any fault took effect.
-pub fn judge_read<T: Subject>(
+pub fn judge_read(
     out: &mut Outcome,
     facts: &ReadFacts,
-    result: &Result<T, String>,
+    shape: &Shape,
+    result: &Result<Vec<u64>, String>,
     expected: &[u64],
     leaf_paths: &[SmallPath],
 ) -> bool {
@@ -487,13 +545,12 @@ pub fn judge_read<T: Subject>(
     let keyed = facts.keyed;
     let is_dec = facts.is_dec;
     let patched = facts.patched;
-    let shape = T::shape();
     let r_result = result;
     let expect_ok_equal = |out: &mut Outcome, id: &'static str, what: &str| {
         out.evaluated[assert_index(id)] += 1;
         match r_result {
             Ok(v2) => {
-                if let Err(e) = all_leaves_equal(v2, &expected, &[]) {
+                if let Err(e) = all_leaves_equal(shape, v2, expected, &[]) {
                     if out.failure.is_none() {
                         out.failure = Some(Failure { assert_id: id, observed: format!("{}: {}", what, e) });
                     }
@@ -511,13 +568,11 @@ pub fn judge_read<T: Subject>(
     };
     let expect_err = |out: &mut Outcome, id: &'static str, what: &str| {
         out.evaluated[assert_index(id)] += 1;
-        if let Ok(v2) = r_result {
-            let mut got = Vec::new();
-            v2.read(&mut got);
+        if let Ok(got) = r_result {
             if out.failure.is_none() {
                 out.failure = Some(Failure {
                     assert_id: id,
-                    observed: format!("{}: deserialize returned Ok({})", what, render_leaves(&shape, &got)),
+                    observed: format!("{}: deserialize returned Ok({})", what, render_leaves(shape, got)),
                 });
             }
         }
@@ -526,7 +581,7 @@ pub fn judge_read<T: Subject>(
         out.evaluated[assert_index("A9")] += 1;
         if let Ok(v2) = r_result {
             if leaf_paths.len() == expected.len() {
-                if let Err(e) = all_leaves_equal(v2, &expected, &skip) {
+                if let Err(e) = all_leaves_equal(shape, v2, expected, &skip) {
                     if out.failure.is_none() {
                         out.failure = Some(Failure { assert_id: "A9", observed: format!("{}: {}", what, e) });
                     }
@@ -578,11 +633,11 @@ pub fn judge_read<T: Subject>(
     any_applied
 }
 
-/// Execute one plan for type `T`.
-pub fn run_plan<T: Subject>(plan: &Plan, opts: RunOpts) -> Outcome {
+/// Execute one plan for the type behind `ops`.
+pub fn run_plan(ops: &dyn Ops, plan: &Plan, opts: RunOpts) -> Outcome {
     let mut out = Outcome::default();
     let mut log = Fnv::default();
-    let shape = T::shape();
+    let shape = ops.shape();
     let is_dec = is_decomposed_name(&plan.ty);
     let medium = plan.medium;
 
@@ -600,21 +655,14 @@ pub fn run_plan<T: Subject>(plan: &Plan, opts: RunOpts) -> Outcome {
     }
 
     // ---- the value and its model -------------------------------------------------------
-    let built = catch_unwind(AssertUnwindSafe(|| {
-        let mut c = Cur::new(&plan.gen);
-        let v = T::build(&mut c);
-        let mut m = Vec::new();
-        v.read(&mut m);
-        (v, m)
-    }));
-    let (v, m) = match built {
+    let m = match ops.model(&plan.gen) {
         Ok(x) => x,
         Err(p) => {
-            out.harness_error = Some(format!("building the value panicked: {}", panic_msg(p)));
+            out.harness_error = Some(format!("building the value panicked: {}", p));
             return out;
         }
     };
-    if T::faithful() && m != plan.gen {
+    if ops.faithful() && m != plan.gen {
         out.harness_error = Some(format!(
             "model mismatch: built from {:?} but public fields read {:?}",
             plan.gen, m
@@ -631,7 +679,7 @@ pub fn run_plan<T: Subject>(plan: &Plan, opts: RunOpts) -> Outcome {
     log.u64(medium.code());
 
     // ---- write -------------------------------------------------------------------------
-    let w = write_once(medium, &v, &plan.wfaults, opts.trace);
+    let w = ops.write_event(medium, &plan.gen, &plan.wfaults, opts.trace);
     out.wsteps = w.steps;
     out.wfired = w.fired.clone();
     out.write_ok = Some(w.result.is_ok());
@@ -697,11 +745,11 @@ pub fn run_plan<T: Subject>(plan: &Plan, opts: RunOpts) -> Outcome {
                     whole = false;
                     why = e;
                 } else {
-                    let rb: ReadOutcome<T> = read_once(medium, root, &[], false, false);
+                    let rb: ReadOutcome = ops.read_event(medium, root, &[], false, false);
                     out.rsteps += rb.steps;
                     match rb.result {
                         Ok(v2) => {
-                            if let Err(e) = all_leaves_equal(&v2, &m, &[]) {
+                            if let Err(e) = all_leaves_equal(&shape, &v2, &m, &[]) {
                                 whole = false;
                                 why = e;
                             }
@@ -752,7 +800,7 @@ pub fn run_plan<T: Subject>(plan: &Plan, opts: RunOpts) -> Outcome {
     }
 
     if let Some(root) = stored.as_ref() {
-        let r: ReadOutcome<T> = read_once(medium, root, &plan.rfaults, opts.trace, plan.in_place);
+        let r: ReadOutcome = ops.read_event(medium, root, &plan.rfaults, opts.trace, plan.in_place);
         out.rsteps += r.steps;
         if r.runaway {
             eval!("AR");
@@ -787,15 +835,11 @@ pub fn run_plan<T: Subject>(plan: &Plan, opts: RunOpts) -> Outcome {
             is_dec,
             patched,
         };
-        let any_applied = judge_read(&mut out, &facts, &r.result, &expected, &leaf_paths);
+        let any_applied = judge_read(&mut out, &facts, &shape, &r.result, &expected, &leaf_paths);
         if opts.trace {
             let d = out.detail.get_or_insert_with(RunDetail::default);
             d.read_result = match &r.result {
-                Ok(v2) => {
-                    let mut got = Vec::new();
-                    v2.read(&mut got);
-                    format!("Ok({})", render_leaves(&shape, &got))
-                }
+                Ok(got) => format!("Ok({})", render_leaves(&shape, got)),
                 Err(e) => format!("Err({})", e),
             };
             d.rtrace = r.trace.clone().unwrap_or_default();
@@ -859,17 +903,17 @@ pub fn run_plan<T: Subject>(plan: &Plan, opts: RunOpts) -> Outcome {
     // ---- recovery ----------------------------------------------------------------------
     if plan.retry && (wfaulted || out.nontrivial) {
         eval!("AR");
-        let w2 = write_once(medium, &v, &[], false);
+        let w2 = ops.write_event(medium, &plan.gen, &[], false);
         out.wsteps += w2.steps;
         log.u64(w2.log);
         match (&w2.result, &w2.root) {
             (Ok(()), Some(root2)) => {
-                let r2: ReadOutcome<T> = read_once(medium, root2, &[], false, plan.in_place);
+                let r2: ReadOutcome = ops.read_event(medium, root2, &[], false, plan.in_place);
                 out.rsteps += r2.steps;
                 log.u64(r2.log);
                 match r2.result {
                     Ok(v2) => {
-                        if let Err(e) = all_leaves_equal(&v2, &m, &[]) {
+                        if let Err(e) = all_leaves_equal(&shape, &v2, &m, &[]) {
                             fail!("AR", "fault-free retry after a faulted attempt: {}", e);
                         }
                     }
